@@ -544,6 +544,12 @@ pub fn run(ctx: &Ctx) -> i32 {
                     r.densified_bins,
                     if r.counterexample.is_some() { "COUNTEREXAMPLE" } else { "ok" }
                 );
+                if m == 3 {
+                    let wit = find_witnesses::<$t>(m, base).unwrap_or_default();
+                    let ops = vec![Op::Sketch(0), Op::Sketch(wit.len().saturating_sub(1)), Op::EndSketch, Op::Sketch(1), Op::EndSketch, Op::Reinit];
+                    let (viol, obs) = replay_ops::<$t>(m, &ops, wit.clone(), vec![vec![], vec![wit[0]]]);
+                    ctx.sample(json!({"sketcher": $tag, "m": m, "witness_items": wit, "path": ops_json(&ops), "violated": viol, "result": obs}));
+                }
                 tot_states += r.unique;
                 tot_trans += r.generated;
                 spaces.push(json!({"sketcher": r.name, "m": r.m, "unique_states": r.unique, "generated": r.generated, "max_depth": r.depth,
